@@ -397,18 +397,6 @@ impl Obs {
     pub fn tip_commit(&self) -> Option<Hash> {
         self.chain.last().map(|c| c.hash)
     }
-
-    /// Canonical bytes identifying this observation (for distinct counting).
-    #[must_use]
-    pub fn ident(&self) -> Vec<u8> {
-        let mut v = Vec::new();
-        v.extend_from_slice(&self.tick.to_le_bytes());
-        v.extend_from_slice(&self.state_root);
-        if let Some(c) = self.tip_commit() {
-            v.extend_from_slice(&c);
-        }
-        v
-    }
 }
 
 /// 64-bit fingerprint of everything `observe` extracts except `tx_counter`
